@@ -10,6 +10,7 @@
 From Coq Require Import List NArith Bool Lia.
 From Verif Require Import gen.GoLoops.
 From Verif Require Model.Proxy Model.Throttle Model.Admission.
+From Coq Require String.
 Import ListNotations.
 Open Scope N_scope.
 Open Scope list_scope.
@@ -22,7 +23,7 @@ Section Chunks.
 
   (* the call the loop makes for the index range [i, e): da.Get(ctx, idsResult.IDs[i:e], namespace) *)
   Definition range_call (i e : N) : option (list R) := get (firstn (N.to_nat (e - i)) (skipn (N.to_nat i) ids)).
-  Definition chunk_loop := loop_retrieve_chunks R range_call (N.of_nat Admission.batch_size) (N.of_nat (length ids)).
+  Definition chunk_loop := loop_retrieve_chunks R range_call (N.of_nat (length ids)).   (* the batch size 100 is a literal of the source *)
 
   (* the model: Get the chunks of Admission.chunks one after the other, stop at the first error *)
   Fixpoint get_all (cs : list (list A)) (acc : list R) : list R + list R :=
@@ -63,7 +64,7 @@ Section Chunks.
     chunk_loop fuel i acc = Some (get_all (Admission.chunks (skipn (N.to_nat i) ids)) acc).
   Proof.
     induction fuel as [|f IH]; intros i acc Hf; [lia|].
-    unfold chunk_loop in *. cbn [L_retrieve_chunks.loop].
+    unfold chunk_loop in *. cbn [L_retrieve_chunks.loop]. change 100 with (N.of_nat Admission.batch_size).
     destruct (i <? N.of_nat (length ids)) eqn:E.
     - apply N.ltb_lt in E.
       assert (Hne : skipn (N.to_nat i) ids <> []).
@@ -95,5 +96,10 @@ Section Chunks.
     chunk_loop (S (length ids)) loop_retrieve_chunks_start [] = Some (get_all (Admission.chunks ids) []).
   Proof. rewrite go_retrieve_chunks_gen; [reflexivity|]. cbn. lia. Qed.
 End Chunks.
+
+
+(* the loop reads exactly these inputs, by name (the lemmas instantiate them by position) *)
+Lemma go_retrieve_chunks_inputs : LoopInputs.loop_retrieve_chunks_inputs = [].
+Proof. reflexivity. Qed.
 
 Print Assumptions go_retrieve_chunks.
